@@ -8,8 +8,10 @@ import (
 	"strconv"
 	"strings"
 
+	storetypes "cosmossdk.io/store/types"
 	sdk "github.com/cosmos/cosmos-sdk/types"
 
+	mtmodule "mods.irisnet.org/modules/mt"
 	mttypes "mods.irisnet.org/modules/mt/types"
 
 	"verifharness/hx"
@@ -20,12 +22,19 @@ const nAcc = 4
 type R struct {
 	env   *hx.Env
 	names map[string]string // bech32 -> symbolic
+	addrs []string          // universe accounts in ascending bech32 order (index = symbolic number)
 }
 
 func New(env *hx.Env) *R {
 	r := &R{env: env, names: map[string]string{}}
+	// symbolic names are assigned in ascending bech32 order, so that the order of names equals
+	// the order of addresses (the genesis export sorts owners by address string)
 	for i := 0; i < nAcc; i++ {
-		r.names[hx.Acc(i).String()] = hx.AccName(i)
+		r.addrs = append(r.addrs, hx.Acc(i).String())
+	}
+	sort.Strings(r.addrs)
+	for i, a := range r.addrs {
+		r.names[a] = hx.AccName(i)
 	}
 	return r
 }
@@ -47,8 +56,8 @@ func (r *R) sym(bech string) string {
 
 func (r *R) addr(sym string) string {
 	if strings.HasPrefix(sym, "A") {
-		if i, err := strconv.Atoi(sym[1:]); err == nil {
-			return hx.Acc(i).String()
+		if i, err := strconv.Atoi(sym[1:]); err == nil && i < len(r.addrs) {
+			return r.addrs[i]
 		}
 	}
 	return sym
@@ -155,6 +164,11 @@ func (r *R) Gen(ctx sdk.Context, g *hx.Rng) string {
 	kind := g.Pick(3, 8, 3, 10, 7, 3)
 	if len(denoms) == 0 {
 		kind = 0
+	} else if g.Chance(1, 25) {
+		if g.Chance(1, 2) {
+			return "mt export"
+		}
+		return "mt reimport"
 	}
 	switch kind {
 	case 0:
@@ -251,8 +265,58 @@ func unhex(s string) []byte {
 	return b
 }
 
+// genesisLine renders the real exported genesis in its own order.
+func (r *R) genesisLine(gs *mttypes.GenesisState) string {
+	var cols, owners []string
+	for _, c := range gs.Collections {
+		var ms []string
+		for _, m := range c.Mts {
+			ms = append(ms, fmt.Sprintf("%s:%d:%s", m.Id, m.Supply, hx.Dash(hx.Hex(m.Data))))
+		}
+		cols = append(cols, fmt.Sprintf("%s:%s:%s:%s[%s]", c.Denom.Id, r.sym(c.Denom.Owner), hx.Dash(c.Denom.Name), hx.Dash(hx.Hex(c.Denom.Data)), strings.Join(ms, ";")))
+	}
+	for _, o := range gs.Owners {
+		var ds []string
+		for _, d := range o.Denoms {
+			var bs []string
+			for _, b := range d.Balances {
+				bs = append(bs, fmt.Sprintf("%s:%d", b.MtId, b.Amount))
+			}
+			ds = append(ds, fmt.Sprintf("%s(%s)", d.DenomId, strings.Join(bs, ";")))
+		}
+		owners = append(owners, fmt.Sprintf("%s[%s]", r.sym(o.Address), strings.Join(ds, ";")))
+	}
+	return fmt.Sprintf("cols=%s owners=%s", strings.Join(cols, "|"), strings.Join(owners, "|"))
+}
+
 func (r *R) Exec(ctx sdk.Context, line string) (sdk.Context, string) {
 	f := strings.Fields(line)
+	switch f[1] {
+	case "export":
+		gs := r.env.MT.ExportGenesisState(ctx)
+		v := "ok"
+		if err := mttypes.ValidateGenesis(*gs); err != nil {
+			v = "err"
+		}
+		return ctx, fmt.Sprintf("ok validate=%s %s", v, r.genesisLine(gs))
+	case "reimport":
+		gs := r.env.MT.ExportGenesisState(ctx)
+		class, _ := hx.Try(ctx, func(c sdk.Context) error {
+			st := c.KVStore(r.env.App.UnsafeFindStoreKey("mt"))
+			it := storetypes.KVStorePrefixIterator(st, nil)
+			var keys [][]byte
+			for ; it.Valid(); it.Next() {
+				keys = append(keys, append([]byte{}, it.Key()...))
+			}
+			it.Close()
+			for _, k := range keys {
+				st.Delete(k)
+			}
+			mtmodule.InitGenesis(c, r.env.MT, *gs)
+			return nil
+		})
+		return ctx, class + " " + r.state(ctx)
+	}
 	a := hx.Args(f[2:])
 	var msg sdk.Msg
 	switch f[1] {
